@@ -242,6 +242,11 @@ Lemma parse_unary_S (f : nat) (nb : bool) (ts : list tok) :
         | Some (ESigned v t, ts1) =>
             if (0 <? v)%Z then Some (ESigned (- v) t, ts1)
             else Some (EUnary Negative (ESigned v t), ts1)
+        | Some (EBits v t, ts1) =>
+            (* commit 4639ff7: the magnitude of i128::MIN only fits a bit literal,
+               whatever its spelling or suffix *)
+            if (v =? i128_min_abs)%Z then Some (ESigned (- i128_min_abs) t, ts1)
+            else Some (EUnary Negative (EBits v t), ts1)
         | Some (e, ts1) => Some (EUnary Negative e, ts1)
         | None => None
         end
@@ -1497,6 +1502,19 @@ Proof.
   rewrite Z.opp_involutive. apply conv_ret.
 Qed.
 
+Lemma literal_min t :
+  literal_of (tk_sint i128_min_abs t) = Some (EBits i128_min_abs t).
+Proof. destruct t as [p|]; [destruct p|]; reflexivity. Qed.
+
+(* -2^127: the printed magnitude is a bit literal, which `-` folds back. *)
+Lemma min_literal_P1 nb t : P1 nb (ESigned (- i128_min_abs) t).
+Proof.
+  intros R Hok. cbn [print_expr]. change (- i128_min_abs <? 0)%Z with true. cbn [app].
+  step parse_unary_S. rewrite Z.opp_involutive.
+  bind (primary_literal_conv nb _ _ R (literal_min t)).
+  change (i128_min_abs =? i128_min_abs)%Z with true. apply conv_ret.
+Qed.
+
 Lemma unary_P1 nb op e :
   P0 nb e -> (match op with Negative => negb (is_pos_signed e) | BitwiseComplement => true end) = true ->
   P1 nb (EUnary op e).
@@ -1504,8 +1522,8 @@ Proof.
   intros He Hop R Hok. cbn [print_expr]. cbn [app]. step parse_unary_S.
   assert (Hok0 : okf 0 nb e R = true) by (eapply okf_trans; [exact Hok|cbn [redge]; auto|lia|lia]).
   destruct op; tkred.
-  - bind (He R Hok0). destruct e; try apply conv_ret.
-    cbn [is_pos_signed] in Hop. apply negb_true_iff in Hop. rewrite Hop. apply conv_ret.
+  - bind (He R Hok0). destruct e; try apply conv_ret;
+      cbn [is_pos_signed] in Hop; apply negb_true_iff in Hop; rewrite Hop; apply conv_ret.
   - bind (He R Hok0). apply conv_ret.
 Qed.
 
@@ -1648,6 +1666,12 @@ Proof.
     apply Pall_build; try exact Hwf0; try wrong_lvl; try exact I; try discriminate.
     intros _. eapply literal_P0; [apply literal_bool|reflexivity].
   - (* ESigned *)
+    apply orb_prop in Hwf as [Hwf|Hwf].
+    2: { (* i128::MIN *)
+      apply andb_prop in Hwf as [Hv Ht]. apply Z.eqb_eq in Hv. subst v.
+      apply Pall_build; try exact Hwf0; try exact I; try discriminate;
+        try (intros HL; cbn [lvl] in HL; discriminate HL).
+      intros _. apply min_literal_P1. }
     split_wf Hwf. destruct (v <? 0)%Z eqn:Eneg.
     + apply Pall_build; try exact Hwf0; try exact I; try discriminate;
         try (intros HL; cbn [lvl] in HL; rewrite Eneg in HL; discriminate HL).
@@ -2265,6 +2289,21 @@ Module Examples.
     parse_expr 20 [tk KBracketLeft; mk KSuffixedInteger 5 (Some (TyPrim Uint8)) []; tk KComma;
                    mk KSuffixedInteger 5 (Some (TyPrim Int32)) []; tk KBracketRight; semi]
     = Some (EArray [EBits 5 (Some Uint8); ESigned 5 (Some Int32)], [semi]).
+  Proof. vm_compute. reflexivity. Qed.
+
+  (* i128::MIN (commit 4639ff7): `-` folds a bit literal of value 2^127, keeping its suffix *)
+  Example ex_neg_min :
+    parse_expr 20 [tk KMinus; mk KSuffixedInteger (2 ^ 127) (Some (TyPrim Int128)) []; semi]
+    = Some (ESigned (- 2 ^ 127) (Some Int128), [semi]).
+  Proof. vm_compute. reflexivity. Qed.
+  Example ex_neg_min_hex_u8 :
+    parse_expr 20 [tk KMinus; mk KBitInteger (2 ^ 127) None []; tk KPlus; tk KMinus;
+                   mk KSuffixedInteger (2 ^ 127) (Some (TyPrim Uint8)) []; semi]
+    = Some (EBinary Add (ESigned (- 2 ^ 127) None) (ESigned (- 2 ^ 127) (Some Uint8)), [semi]).
+  Proof. vm_compute. reflexivity. Qed.
+  Example ex_neg_min_roundtrip :
+    parse_expr 20 (print_expr (ESigned (- 2 ^ 127) (Some Uint8)) ++ [semi])
+    = Some (ESigned (- 2 ^ 127) (Some Uint8), [semi]).
   Proof. vm_compute. reflexivity. Qed.
 
   (* casts bind tighter than `*`; `cast` applies to the unary expression only *)
